@@ -1409,7 +1409,11 @@ func (v *v41) checkSlotTable(s *slot41) {
 		return
 	}
 	ops := v.ops(op)
-	what := pick(v.rng, []string{"bad-session", "bad-slot", "too-many-ops", "no-sequence", "create-session-not-only-op", "destroy-session-not-only-op", "exchange-id-not-only-op", "destroy-clientid-busy", "create-session-stale-clientid", "exchange-id-again"})
+	if op.kind == k41SeqTwice {
+		// (Its operation list starts with a SEQUENCE of its own.)
+		ops = []nfsv4.NfsArgop4{&nfsv4.NfsArgop4_OP_PUTROOTFH{}}
+	}
+	what := pick(v.rng, []string{"bad-session", "bad-slot", "too-many-ops", "no-sequence", "create-session-not-only-op", "destroy-session-not-only-op", "exchange-id-not-only-op", "destroy-clientid-not-only-op", "destroy-clientid-busy", "create-session-stale-clientid", "exchange-id-again"})
 	var req []byte
 	switch what {
 	case "bad-session":
@@ -1444,6 +1448,8 @@ func (v *v41) checkSlotTable(s *slot41) {
 			EiaClientowner:  nfsv4.ClientOwner4{CoVerifier: [8]byte{9, 9, 9}, CoOwnerid: c.ownerID},
 			EiaStateProtect: &nfsv4.StateProtect4A_SP4_NONE{},
 		}}, &nfsv4.NfsArgop4_OP_PUTROOTFH{}))
+	case "destroy-clientid-not-only-op":
+		req = encodeArgs(compound(1, "destroy_clientid", &nfsv4.NfsArgop4_OP_DESTROY_CLIENTID{OpdestroyClientid: nfsv4.DestroyClientid4args{DcaClientid: c.id}}, &nfsv4.NfsArgop4_OP_PUTROOTFH{}))
 	case "destroy-clientid-busy":
 		req = encodeArgs(compound(1, "destroy_clientid", &nfsv4.NfsArgop4_OP_DESTROY_CLIENTID{OpdestroyClientid: nfsv4.DestroyClientid4args{DcaClientid: c.id}}))
 	case "create-session-stale-clientid":
@@ -1604,6 +1610,14 @@ func (v *v41) destroySession(c *client41) {
 	var d2 *pending
 	if via != nil && mode == "from-own-session" {
 		if d2, ok = v.send(req, "RETRANSMIT DESTROY_SESSION from its own session"); !ok {
+			return
+		}
+		v.dups++
+	}
+	if mode == "standalone" {
+		// Not sequenced, nothing cached: the session is gone, any
+		// answer will do as long as nothing changes.
+		if _, ok = v.send(req, "RETRANSMIT DESTROY_SESSION standalone"); !ok {
 			return
 		}
 		v.dups++
